@@ -18,7 +18,7 @@ for p in props:
             "evidence_file": "evidence/%s.json" % p,
             "replay_cmd_template": "./vcheck replay {path}",
             "engine": c["engine"],
-            "level_claimed": {"category": "model_checking", "text": c["text"], "design_ref": c["design_ref"]},
+            "level_claimed": {"category": c.get("level", "model_checking"), "text": c["text"], "design_ref": c["design_ref"]},
             "level_note": c["note"],
             "technique": c["technique"],
         })
